@@ -36,6 +36,9 @@ type op struct {
 	A     int64  `json:"a"`
 	B     int64  `json:"b"`
 	Data  []int  `json:"data"`
+	// open: lazy index persistence (auto commit with a long persist interval: commits reach
+	// index.domain only when the writer closes) instead of persist-on-every-commit
+	Lazy bool `json:"lazy,omitempty"`
 	// deletec: writer ops that run inside the start / end offset resolver of Delete
 	SOps []op `json:"sops,omitempty"`
 	EOps []op `json:"eops,omitempty"`
@@ -188,10 +191,14 @@ func writerOp(ctx context.Context, db *domain.DB, writers map[int]*domain.Writer
 			return nil, true
 		}
 		var w *domain.Writer
+		interval := domain.AlwaysIndexPersistOnAutoCommit
+		if o.Lazy {
+			interval = telem.Hour
+		}
 		w, err = db.OpenWriter(ctx, domain.WriterConfig{
 			Start:                    telem.TimeStamp(o.Start),
 			End:                      telem.TimeStamp(o.End),
-			AutoIndexPersistInterval: domain.AlwaysIndexPersistOnAutoCommit,
+			AutoIndexPersistInterval: interval,
 		})
 		if err == nil {
 			writers[o.W] = w
@@ -263,6 +270,27 @@ func runCase(c tcase) (res result) {
 					st.Cls = "badop"
 					return
 				}
+			case "reopen":
+				// restart: close every writer (in id order), close the DB, open it again on the
+				// same file system
+				ids := make([]int, 0, len(writers))
+				for id := range writers {
+					ids = append(ids, id)
+				}
+				sort.Ints(ids)
+				for _, id := range ids {
+					if cerr := writers[id].Close(); cerr != nil {
+						err = errors.Combine(err, cerr)
+					}
+				}
+				if cerr := db.Close(); cerr != nil {
+					panic("reopen: db.Close: " + cerr.Error())
+				}
+				ndb, oerr := domain.Open(cfg)
+				if oerr != nil {
+					panic("reopen: domain.Open: " + oerr.Error())
+				}
+				db = ndb
 			case "deletec":
 				nestedPanic := false
 				mk := func(phase string, ops []op) domain.OffsetResolver {
@@ -333,7 +361,7 @@ func runCase(c tcase) (res result) {
 			res.Steps = append(res.Steps, st)
 			return res
 		}
-		if w, ok := writers[o.W]; ok && o.Op != "delete" && o.Op != "deletec" {
+		if w, ok := writers[o.W]; ok && o.Op != "delete" && o.Op != "deletec" && o.Op != "reopen" {
 			st.Key = int(w.VerifC03FileKey())
 			st.WStart = int64(w.Start)
 			st.WEnd = int64(w.End)
